@@ -91,6 +91,52 @@ def hash_case(spec):
                 viol.append({'kind': 'hashseed-changes-output', 'mech': 'KF-CTX' if cvmon.ctx_attributable(case, base ^ got) else None,
                              'msg': f'{spec["stratum"]} PYTHONHASHSEED={hs}: {len(got)} peptides vs {len(base)} with seed 0; '
                                     f'missing {sorted(base - got)[:4]} extra {sorted(got - base)[:4]}'})
+        # ---------------- file layout / order on the rich input (in-process): every record in a file of its own (per family,
+        # shuffled order), or the original files cut in two with the halves in reversed order; records of one transcript then
+        # reach callVariant through different file pointers
+        from moPepGen.cli.index_gvf import index_gvf
+        for k in range(spec.get('layouts', 2)):
+            mode = ['one-record-per-file', 'halves-reversed'][k % 2]
+            ldir = f'{wd}/rlayout{k}'
+            os.makedirs(ldir)
+            parts = []
+            for name, source, recs in case.files:
+                fams = {}
+                for r in recs:
+                    fams.setdefault(r.family, []).append(r)
+                for fam, rs in fams.items():
+                    if mode == 'one-record-per-file':
+                        chunks = [[r] for r in rs]
+                    else:
+                        h = max(1, len(rs) // 2)
+                        chunks = [c for c in (rs[h:], rs[:h]) if c]
+                    for ch in chunks:
+                        parts.append((source, fam, ch))
+            if mode == 'one-record-per-file':
+                rng.shuffle(parts)
+            lpaths = []
+            for i, (source, fam, ch) in enumerate(parts):
+                p = f'{ldir}/part{i}.gvf'
+                gvfgen.write_gvf(p, ch, source, fam)
+                lpaths.append(p)
+                if rng.random() < 0.3:
+                    with drivers.quiet():
+                        index_gvf(argparse.Namespace(input_path=Path(p), quiet=True, debug_level=1, command='indexGVF'))
+            try:
+                fa2, _ = cvmon.execute(case, wd, lpaths, out=f'rlayout{k}.fasta')
+            except Exception as e:
+                if 'Failed to finish transcript' in str(e):
+                    continue
+                viol.append({'kind': 'layout-run-failed', 'msg': f'{spec["stratum"]} layout {mode} ({len(lpaths)} files): {type(e).__name__}: {str(e)[:200]}'})
+                continue
+            counters['rich_layout_runs'] = counters.get('rich_layout_runs', 0) + 1
+            got = {s for _, s in fa2}
+            if got != base:
+                # nested-AS inputs: where the peptide is truncated inside the inserted segment (KF-NESTED) depends on iteration order
+                nested = any(e.tag == 'nested-donor' for bb in cv.build_backbones(case) for e in bb.edits)
+                viol.append({'kind': 'layout-changes-output',
+                             'mech': 'KF-NESTED' if nested else ('KF-CTX' if cvmon.ctx_attributable(case, base ^ got) else None),
+                             'msg': f'{spec["stratum"]} layout {mode} with {len(lpaths)} files: missing {sorted(base - got)[:4]} extra {sorted(got - base)[:4]}'})
         return {'nontrivial': bool(base), 'feature': ('hash', spec['stratum'], tuple(spec['hashseeds'])), 'violations': viol,
                 'counters': counters, 'sample': {'stratum': spec['stratum'], 'hashseeds': spec['hashseeds'], 'base_peptides': len(base)}}
     finally:
@@ -249,14 +295,21 @@ def check(rep, tier, seed, specs=None, n_override=None):
             specs.append({'kind': 'hash', 'stratum': hstrata[i % len(hstrata)],
                           'hashseeds': [[1, 2], [3, 'random'], [4, 5], [7, 9]][i % 4],
                           'seed': common.hash64('c06h', 'fixed' if i < nh // 2 else seed, i)})
+        # layout-only cases on the rich strata (no CLI runs): several units per transcript, fusions sharing a donor breakpoint, AS
+        # records with nested variants, circRNA
+        lstrata = ['units', 'units', 'fusion_var', 'as_nested', 'circ_var', 'units', 'multi', 'fusion_adj']
+        nl = 96 if quick else 4000
+        for i in range(nl):
+            specs.append({'kind': 'hash', 'stratum': lstrata[i % len(lstrata)], 'hashseeds': [], 'layouts': 2,
+                          'seed': common.hash64('c06r', 'fixed' if i < nl // 2 else seed, i)})
     results, lost = common.shard_run('c06', specs, timeout_s=1800 if quick else 8 * 3600)
     rep.rule = ('inputs with 2-9 transcripts in annotation order of which a chosen subset is skipped by the dispatcher (only an intronic record) at '
                 'first / middle / last position; base = --threads 1, one file, raw reference, PYTHONHASHSEED=0 (in-process). Compared against it: '
                 'CLI runs with --threads 2/3/4/5/8 (ppft worker processes), CLI runs with PYTHONHASHSEED 1/2/random, 2-4 GVF files in interleaved / '
                 'per-transcript / shuffled order with duplicated records and with or without indexGVF .idx files, and the reference given as a '
-                'generateIndex directory. Hash seeds are additionally varied on cases of the callVariant engine (fusions with adjacent variants at '
+                'generateIndex directory. Hash seeds and file layouts (one record per file in shuffled order, halves of every file in reversed order) are additionally varied on cases of the callVariant engine (fusions with adjacent variants at '
                 'the breakpoint, several units per transcript, circRNA, alternative splicing). non-trivial = base output non-empty; distinct = (n_tx, n_skipped, thread counts, last/first skipped, ...).')
     rep.absorb(results, lost)
-    for k in ('thread_runs', 'layout_runs', 'index_ref_runs', 'hashseed_runs'):
+    for k in ('thread_runs', 'layout_runs', 'index_ref_runs', 'hashseed_runs', 'rich_layout_runs'):
         if not rep.counters.get(k):
             rep.inconclusive.append(f'monitor {k} had zero evaluations')
